@@ -644,6 +644,10 @@ def corpus_programs():
 def shrink(prog, kind, harness, deadline):
     """greedy statement removal keeping a problem of the same kind"""
     lines = prog["lines"]
+    if kind == "spec-verdict-vs-postprocess-outcome":
+        # this comparison relies on the generator's invariants (every value observable, nothing that
+        # constant folding removes); statement removal would break them, so the case is kept whole
+        return lines
 
     def valid(ls):
         defined_s, defined_c, defined_m, depth = set(), set(), set(), 0
@@ -753,6 +757,9 @@ def main():
             if v != p["expect"]:
                 problems.append(dict(design=p["name"], kind="corpus-expectation", concrete=True,
                                      detail=f"corpus case expects {p['expect']}, postprocess() gave {v}"))
+    if "--replay" in argv and rp.get("what") != "spec-verdict-vs-postprocess-outcome":
+        # a shrunk replay program no longer satisfies the generator's invariants (see shrink)
+        problems = [p for p in problems if p["kind"] != "spec-verdict-vs-postprocess-outcome"]
     hard = [p for p in problems if not p.get("soft")]
     soft = [p for p in problems if p.get("soft")]
 
@@ -786,7 +793,9 @@ def main():
     rep.assumptions = [
         "the Coq definitions relation / check_valid / pin_source / process are hand transcriptions of getOutputClockRelation, checkValidInputClocks, "
         "getClockPinSource and the inferClockDomains loop; their agreement with the C++ is established per run by the comparisons above (sampled designs only)",
-        "node classes with more than one clock port other than Node_CDC (vendor primitives) hit HCL_ASSERT in the C++ base rule and are outside the model",
+        "node classes outside hlim/ that override the two functions are not modelled and not generated: frontend ExternalModule::Node_External_Exposed "
+        "(every input compared with its declared clock, every output a source of its declared clock) and the vendor primitives ALTSYNCRAM / ALTDPRAM / RAMBxE2; "
+        "any other node with more than one clock port would hit HCL_ASSERT in the C++ base rule",
         "memory contents are not a signal: data written under one clock and read under another through Node_Memory carries no domain (this is what tests/frontend/CDC.cpp expects)",
         "a source without a clock (domain UNKNOWN, only constructible through the hlim API) is treated as an anonymous domain that may not be combined with anything non-constant",
         "the specification is evaluated on the circuit handed to the detector (post-processed) and on the circuit as built; the generator avoids constructs whose crossing would be optimised away",
@@ -825,6 +834,11 @@ def main():
                                problems=[f"{p['design']}: {p['kind']}: {p['detail']}" for p in hard[:12]],
                                program=(byname[hard[0]["design"]]["lines"] if hard and hard[0]["design"] in byname else [])),
                           nofail=True)
+    else:
+        # nothing to diagnose: drop the (large) dumps of this run
+        for sub in ("main", "search", "shrink"):
+            for f in (WORK / sub).glob("dump*.txt"):
+                f.unlink()
     rep.finish()
 
 
